@@ -271,6 +271,13 @@ Section XSim.
     split; auto. apply sim_set_n; auto.
   Qed.
 
+  Lemma x_setbeats_sim a b rid k T T' i v : sim t0 a b ->
+    psim (x_setbeats None a rid k T i v) (x_setbeats (Some off) b rid k T' i v).
+  Proof.
+    intros S. pose proof S as S'. unpack_sim S'. destruct N as (Hq & Hc & Ha & Hb & Hl).
+    unfold psim, x_setbeats. rewrite Ha, Hb. destruct i; simpl; split; auto.
+  Qed.
+
   Lemma x_seed_sim a b rid s : sim t0 a b -> psim (x_seed a rid s) (x_seed b rid s).
   Proof.
     intros S. pose proof S as S'. unpack_sim S'. unfold psim, x_seed. cbn [fst snd]. split; auto. rewrite H0.
@@ -359,6 +366,7 @@ Section XSim.
       + apply STEP. apply x_play_sim; auto.
       + apply STEP. apply x_play_sim; auto. discriminate.
       + apply STEP. apply x_tempo_sim; auto.
+      + apply STEP. apply x_setbeats_sim; auto.
       + apply STEP. apply x_seed_sim; auto.
       + apply STEP. apply x_draw_sim; auto.
       + rewrite H1. destruct (nth_error (x_conds a) c) as [[t ws]|]; [|simpl; auto].
